@@ -442,6 +442,22 @@ fn judge_fault(
         // after all data was consumed, or an Interrupted that was retried)
         ctx.tally(&format!("fault.ok-identical.{}", kind_name(f.kind)), 1);
         ctx.seen("fault.ok-identical.components", comp);
+        if !matches!(f.kind, FaultKind::Interrupted) {
+            // "an error raised by the underlying source or sink surfaces as an error": a raised error other than
+            // an (retried) interruption must not end in Ok, even if the bytes happen to be complete
+            let mode = if f.sticky { "sticky" } else { "once" };
+            ctx.violation(
+                format!("C09/{comp}/fault-swallowed/identical-result/{mode}"),
+                format!(
+                    "{}: injected {} error at call {} ({mode}, raised {raised}x) did not surface: the run ended in the same clean result as without the fault ({})",
+                    what(),
+                    kind_name(f.kind),
+                    f.at_call,
+                    got.brief()
+                ),
+                replay(),
+            );
+        }
         return;
     }
     let mode = if f.sticky { "sticky" } else { "once" };
@@ -1779,6 +1795,38 @@ fn family_streams(ctx: &mut Ctx) {
         if let Ok(m) = b.to_vec(ChaCha8Rng::seed_from_u64(1)) {
             streams.push((format!("partial-literal-{n}"), m));
         }
+    }
+    // every length form of the packet framing (one-, two- and five-octet new-format lengths, one-, two- and
+    // four-octet old-format lengths, partial chunks closed by each of them), framed by the reference: the
+    // multi-octet length fields are what a short-read schedule splits
+    {
+        use rfc::frame::{frame, LenForm};
+        let mut rng = Ctx::fixed_rng("c09.pp.forms", 0);
+        let lit = |n: usize, rng: &mut ChaCha8Rng| {
+            let mut b = vec![b'b', 0, 0, 0, 0, 0];
+            b.extend(payload(rng, n, false));
+            b
+        };
+        let mut w = vec![];
+        let forms: Vec<(usize, LenForm)> = vec![
+            (20, LenForm::New1),
+            (300, LenForm::New2),
+            (300, LenForm::New5),
+            (9000, LenForm::NewMin),
+            (100, LenForm::Old1),
+            (300, LenForm::Old2),
+            (300, LenForm::Old4),
+            (70000, LenForm::Old4),
+            (1500, LenForm::Partial(vec![512, 512], Box::new(LenForm::New5))),
+            (1500, LenForm::Partial(vec![1024], Box::new(LenForm::New2))),
+            (600, LenForm::Partial(vec![512], Box::new(LenForm::New1))),
+        ];
+        for (n, f) in &forms {
+            if let Some(p) = frame(11, &lit(*n, &mut rng), f) {
+                w.extend(p);
+            }
+        }
+        streams.push(("literals-in-every-length-form".into(), w));
     }
     for (name, wire) in &streams {
         if !ctx.mine() {
